@@ -268,6 +268,7 @@ class Response:
     status = Status()
 
     done = False
+    started = False  # the header block has been handed to the transport
     close = False
     stream = False
     chunked = False
